@@ -143,21 +143,10 @@ def pairOracles : List Step → List (Out StepOut) → List (String × Bool)
     ("C06.sts_idempotent", idempotent a b oa ob) :: pairOracles (b :: ss) (.val ob :: os)
   | _, _ => []
 
-/-- the implementation's outcomes when no step panicked -/
-def valsOf : List (Out StepOut) → Option (List StepOut)
-  | [] => some []
-  | .val o :: os => (valsOf os).map (o :: ·)
-  | .panic :: _ => none
-
-/-- the exposure after every snapshot stays within what the walk's steps allow -/
-def walkBound (rel : Rel) (r : Int) (e0 : Int) : List Step → List Step → List (Out StepOut) → Bool
-  | _, [], _ => true
-  | done, s :: ss, .val o :: os =>
-    let done' := done ++ [s]
-    (match o.wl with
-     | some d' => decide (exposureW d' ≤ max e0 (allowedMax rel r done'))
-     | none => true) && walkBound rel r e0 done' ss os
-  | _, _, _ => true
+/-- the implementation's outcomes up to the first panic -/
+def valsOf : List (Out StepOut) → List StepOut
+  | .val o :: os => o :: valsOf os
+  | _ => []
 
 /-- which branch each step of the implementation's walk took (distribution statistics) -/
 def stepTags : Option Wl → List Step → List (Out StepOut) → List String
@@ -229,22 +218,18 @@ def handle : Handler := fun op inp impl => do
     -- oracles on the implementation's snapshots
     let stepH := walkOracles c d0 steps outs
     let pairH := pairOracles steps outs
-    -- C05 round trip: the user's view survives, the knobs are released
-    let (rtH, rtTags) := match d0, valsOf outs with
-      | some d, some vs =>
-        if vs.length = steps.length then
-          ([("C05.sts_walk_view", walkView d steps vs)] ++
-           (if endsReleased steps vs then [("C05.sts_round_trip", roundTrip d steps vs)] else []),
-           if endsReleased steps vs then ["roundtrip"] else [])
-        else ([], [])
-      | _, _ => ([], [])
+    let vs := valsOf outs
+    -- C05 round trip: the user's view survives every step, every complete Finalize releases the knobs
+    let (rtH, rtTags) := match d0 with
+      | some d => ([("C05.sts_round_trip", roundTrip d steps vs)], if hasRelease steps vs then ["roundtrip"] else [])
+      | none => ([], [])
     -- C01 walk bound (fixed size, the user leaves the update strategy alone)
     let wbH := match d0 with
       | some d =>
         match replicasOf d with
         | some r =>
           if quiet steps ∧ sizeOK r ∧ nnOK r rel.noNeedUpdate then
-            [("C01.sts_walk_bound", walkBound rel r (exposureW d) [] steps outs)]
+            [("C01.sts_walk_bound", walkBounded rel r (exposureW d) steps vs)]
           else []
         | none => []
       | none => []
